@@ -320,7 +320,32 @@ type e2eCase struct {
 
 var e2eNames = []string{"a", "b", "dir", "file.txt", "x y", "ü", "Makefile", "src", "README", "a.b", "z-1", "sp ace", "q\"uote", "back\\slash", "tab\tname", "star*", "[9]", "semi;colon", "caf\xe9.txt", "a\x01b", "del\x7f", "{}", "{{cc.name}}", "x}", "at@{1}", "co:lon"}
 
+// a "git bomb" that is deep rather than wide: 35-45 levels of trees, each holding the level below twice,
+// over a leaf directory; with full names every cited object deep inside has to be described. The scan and
+// the report must take time proportional to the ~45 objects (C05), not to the 2^40 expanded entries.
+func deepBombRepo(r *rng) ([]gObj, []int64) {
+	objs := []gObj{{kind: 'b', size: uint64(10 + r.n(50))}}
+	var leaf []gEntry
+	for i := 0; i < 3+r.n(5); i++ {
+		leaf = append(leaf, gEntry{0o100644, []byte(fmt.Sprintf("f%d", i)), 0})
+	}
+	objs = append(objs, gObj{kind: 't', entries: leaf})
+	depth := 35 + r.n(11)
+	for d := 0; d < depth; d++ {
+		objs = append(objs, gObj{kind: 't', entries: []gEntry{{0o40000, []byte("d0"), len(objs) - 1}, {0o40000, []byte("d1"), len(objs) - 1}}})
+	}
+	objs = append(objs, gObj{kind: 'c', tree: len(objs) - 1, pad: r.n(30)})
+	times := make([]int64, len(objs))
+	for i := range times {
+		times[i] = 1500000000
+	}
+	return objs, times
+}
+
 func genE2ERepo(r *rng, tier string) ([]gObj, []int64) {
+	if r.coin(1, 40) {
+		return deepBombRepo(r)
+	}
 	var objs []gObj
 	maxN := 18
 	if tier == "thorough" {
